@@ -212,6 +212,41 @@ PROPS["C10"] = P("exploration",
     floors={"evaluations": 100000, "distinct": 100, "counters": {"rejected": 50000, "accepted": 1000}},
     crash_is_violation=True,
     technique="panic monitor over generative text fuzzing (catch_unwind + worker-crash detection)")
+PROPS["C19"] = P("exploration",
+    "schema documents built from supported constructs only: random valid schema models (and VS) rendered to SDL, with 0-3 of 33 mutation "
+    "operators applied (remove/duplicate the schema block, schema{mutation} only, undefined/interface query type, duplicate type/field/"
+    "directive/scalar, redefined built-in scalars, implement undefined/object/self/cyclic, dropped transitive implements, dropped/widened/"
+    "retyped inherited fields, changed inherited parameters, property with parameters / on the root, edge into the root, reserved names, "
+    "unknown field type, list-of-list edge, ill-typed/enum/object default values, ambiguous origins, custom scalars used or unused) plus the "
+    "empty document; Schema::parse runs under catch_unwind and accept/reject must equal a reference validator implementing the documented "
+    "rules over the document model (error kinds compared informationally). distinct_nontrivial = distinct sets of broken rules observed",
+    quick={"cases": 4000, "timeout": 300},
+    thorough={"cases": 200000, "timeout": 1800},
+    floors={"evaluations": 20000, "distinct": 150, "counters": {"accepted_valid": 3000, "rejected_invalid": 10000}},
+    crash_is_violation=True,
+    technique="reference-model + panic monitor over mutated schema documents")
+PROPS["C20"] = P("exploration",
+    "for VS and random valid schema models (with doc strings and hostile names): a battery of 11 introspection queries through the real "
+    "SchemaAdapter (types/is_interface/docs, implements+implementer, properties with type strings, edges with target/to_many/at_least_one, "
+    "parameters with type and JSON default, entrypoints, the Schema vertex, @optional scopes that produce contexts without active vertex, "
+    "filters by name that use the adapter's hint path) compared as multisets with the harness's model; the same battery under the "
+    "ContractMonitor (with the harness's model of the meta-schema) plain and under a read-ahead wrapper; and "
+    "check_adapter_invariants(meta_schema, SchemaAdapter). distinct_nontrivial = distinct schema shapes",
+    quick={"cases": 25, "timeout": 300},
+    thorough={"cases": 1500, "timeout": 1800},
+    floors={"evaluations": 2000, "distinct": 10, "counters": {"rows_compared": 10000, "contract_calls_checked": 20000, "invariant_checker_passed": 100}},
+    technique="reference-model runtime monitor + contract monitor at the adapter boundary")
+PROPS["C25"] = P("fault_enumeration",
+    "for VS and random valid schemas: (1) the fault-free contract-abiding GraphAdapter must pass check_adapter_invariants; (2) for EVERY site "
+    "the checker documents as covered - (type, property) incl. __typename, (type, edge whose parameters all have defaults), (interface, "
+    "implementer) coercions - and every documented fault kind (non-null value / a neighbor / true coercion for a context without active vertex "
+    "at a random one of the 9 contexts; reverse; swap first two; rotate by one) a FaultInjector is handed to the checker, which must panic; "
+    "undocumented sites/faults (edges with required parameters, dropping a context) are enumerated and recorded only. Exhaustive over sites "
+    "per schema. distinct_nontrivial = distinct (site kind, fault) combinations and schema sizes",
+    quick={"cases": 4, "timeout": 300},
+    thorough={"cases": 120, "timeout": 1800},
+    floors={"evaluations": 3000, "distinct": 12, "counters": {"documented_fault_caught": 3000, "fault_free_runs_passed": 16}},
+    technique="fault injection at the adapter boundary, exhaustive over documented sites per schema")
 PROPS["C14"] = P("exploration",
     GEN + "plus two invalid variants per query with several simultaneous frontend errors, plus schema documents with several simultaneous "
     "errors. Each (schema text, query text, arguments) is observed 3x in-process starting from a fresh Schema::parse (serialised IR, declared "
